@@ -130,7 +130,8 @@ func (p *packageParse) completePack(msg *Message) (*Message, bool) {
 			p.add(id, header)
 		}
 
-		if seq < 1 || seq > len(p.subcontractingRecord[id]) {
+		// 总包数和当前传输记录的不一致 不属于这次传输 (否则会用别的消息的包拼出一条消息)
+		if seq < 1 || seq > len(p.subcontractingRecord[id]) || sum != len(p.subcontractingRecord[id]) {
 			slog.Warn("abnormal packet length",
 				slog.Int("seq", seq),
 				slog.Int("record sum", len(p.subcontractingRecord[id])),
